@@ -33,6 +33,8 @@ def run(tier, seed, t0):
     n_plain = T(tier, 240, 16000); n_asan = T(tier, 60, 4000)
     R.run_inv(Inv("meshio", n_plain, "plain", timeout=T(tier, 600, 14400)), seed, wd, m)
     R.run_inv(Inv("meshio", n_asan, "asan", timeout=T(tier, 900, 14400), first=n_plain), seed, wd, m)
+    # mesh_writer::write compacts the cells and writes the two files in parallel regions: the same round trip with 4 threads
+    R.run_inv(Inv("meshio", n_plain // 2, "plain", threads=4, shards=4, timeout=T(tier, 900, 14400), first=n_plain + n_asan, tag="meshio/plain/t4"), seed, wd, m)
     n = n_plain + n_asan
     b = m.bins.get
     floors = {
